@@ -235,6 +235,10 @@ def normalize(scn, raw):
     loops = {"asyncio": {}, "trio": {}}
 
     def tidc(e):
+        # (thread idents are reused once a thread has died: a payload thread named by the
+        #  harness is a payload thread even if it inherited the ident of the old trio thread)
+        if str(e.get("th", "")).startswith("pth:"):
+            return "other"
         if e["tid"] == main_tid:
             return "main"
         if trio_tid is not None and e["tid"] == trio_tid:
